@@ -156,6 +156,10 @@ PROBES = {
     "C18.arity": [
         rejected("attr", "Deref", "struct X;", True), rejected("attr", "Deref", "struct X {}", True), rejected("attr", "Deref", "struct X(u8);", False),
         rejected("attr", "Deref", "struct X { a: u8 }", False), rejected("attr", "Deref", "struct X(u8, u8);", True), rejected("attr", "Deref, DerefMut", "struct X { a: u8, b: u8, c: u8 }", True),
+        # each of the two on its own, every arity 0..3, both entry points
+        rejected("attr", "DerefMut", "struct X;", True), rejected("attr", "DerefMut", "struct X(u8);", False), rejected("attr", "DerefMut", "struct X(u8, u8);", True),
+        rejected("attr", "DerefMut", "struct X { a: u8, b: u8, c: u8 }", True), rejected("derive", "", "#[derive_ex(DerefMut)] struct X { a: u8, b: u8 }", True),
+        rejected("derive", "", "#[derive_ex(Deref)] struct X(u8, u8, u8);", True), rejected("derive", "", "#[derive_ex(Deref)] struct X();", True), rejected("derive", "", "#[derive_ex(DerefMut)] struct X {}", True),
     ],
     # the methods are declared with the field's own type: a DerefMut next to a hand-written Deref with another Target is refused by rustc rather than coerced
     "C18.signature": [
